@@ -3,7 +3,7 @@
 From Common Require Import Bytes.
 From Common Require Blake2b.
 From Hash Require XXHash Keccak Sha2 ProofsHash.
-From C29 Require Import Model ModelField ModelEd25519 ModelSecp256k1 ModelHost Proofs ProofsSig ProofsHost Vectors.
+From C29 Require Import Model ModelField ModelEd25519 ModelSecp256k1 ModelHost Proofs ProofsSig ProofsHost Witness.
 Local Open Scope Z_scope.
 
 Lemma blake2b128_all :
@@ -117,15 +117,14 @@ Lemma secp256k1_recover_prefix_refuted_all :
 Proof. exact (conj recover_prefix_refuted (conj recover_prefix_panics recover_prefix_agrees)). Qed.
 
 Lemma nonvacuous_all :
-  verify_both rfc1_pk [] rfc1_sig = (true, true)
-  /\ ecdsa_verify k_pkc k_msg (k_r ++ k_s) = true
-  /\ ecdsa_verify k_pkc k_msg (k_r ++ k_high_s) = false
-  /\ recover_public_key k_msg (k_r ++ k_s ++ [n2b 0]) = RKey k_pku
-  /\ recover_public_key k_msg (k_r ++ k_high_s ++ [n2b 1]) = RKey k_pku.
+  (exists pk msg sig, verify_zip215 pk msg sig = true)
+  /\ (exists pk msg sig, secp256k1_verify_signature pk sig msg = true)
+  /\ (exists pk msg sig, host_ecdsa_verify pk msg sig = true).
 Proof.
-  split; [exact rfc8032_test1|]. split; [exact (proj1 secp_verify_vector)|].
-  split; [exact secp_high_s_rejected|].
-  split; [exact (proj1 secp_recover_vector)|exact (proj2 (proj2 (proj2 secp_recover_vector)))].
+  split; [|split].
+  - exists zip_pk, zcash, zip_sig. exact (proj1 zip215_small_order_vector).
+  - exact ecdsa_verify_inhabited.
+  - exists w_pk, w_msg, w_sig4. exact (proj1 host_ecdsa_witness).
 Qed.
 
 Lemma host_functions_all : forall pk msg sig : list byte,
@@ -148,7 +147,7 @@ Proof.
 Qed.
 
 Lemma host_ecdsa_refuted_all :
-  (exists pk msg sig65, host_ecdsa_verify pk msg sig65 <> substrate_ecdsa_verify pk msg sig65
+  (exists pk msg sig65, host_ecdsa_verify pk msg sig65 = true /\ substrate_ecdsa_verify pk msg sig65 = false
                         /\ host_ecdsa_guard pk msg sig65 = true)
   /\ (forall pk msg rs v1 v2, length rs = 64%nat ->
         host_ecdsa_verify pk msg (rs ++ [v1]) = host_ecdsa_verify pk msg (rs ++ [v2])).
